@@ -84,10 +84,8 @@ func c20DirCorpus() []any {
 	}
 	// the commands that load a chart directory, on the special files
 	for _, cmd := range []string{"load", "template", "lint", "package"} {
-		for _, w := range []string{"", "templates", "charts/sub"} {
-			for _, t := range []string{"fifo", "link-fifo", "sock", "dev", "link-loop"} {
-				out = append(out, c20Case{Kind: "dir", Dir: &c20DirC{Cmd: cmd, Extras: []c20DirExtra{{Where: w, Name: "x-" + t, Type: t}}}})
-			}
+		for _, x := range [][2]string{{"", "fifo"}, {"templates", "fifo"}, {"charts/sub", "fifo"}, {"templates", "link-fifo"}, {"", "sock"}, {"charts/sub", "dev"}, {"templates", "link-loop"}} {
+			out = append(out, c20Case{Kind: "dir", Dir: &c20DirC{Cmd: cmd, Extras: []c20DirExtra{{Where: x[0], Name: "x-" + x[1], Type: x[1]}}}})
 		}
 	}
 	return out
@@ -239,7 +237,7 @@ func c20BuildDir(c *c20DirC) (*c20DirBuilt, error) {
 
 // ---------- execution (always in the worker process) ----------
 
-const c20DirTimeout = 12 * time.Second
+const c20DirTimeout = 8 * time.Second
 
 func c20DirCfg() *action.Configuration {
 	return &action.Configuration{Releases: storage.Init(driver.NewMemory()), KubeClient: &kubefake.PrintingKubeClient{Out: io.Discard},
